@@ -393,13 +393,18 @@ int main(void)
 		}
 		if (!strcmp(op, "sources")) {
 			void **tab = calloc(s->k + 1, sizeof(void *));
+			/* the application's table is an output table: it is handed over holding what a previous block left in it
+			 * (a symbol of 0xEE bytes), so that an entry the library does not write is seen as what it is */
+			unsigned char *stale = malloc(s->len + 1); memset(stale, 0xEE, s->len + 1);
+			for (unsigned i = 0; i < s->k; i++) tab[i] = stale;
 			cur_sid = sid; of_status_t st = of_get_source_symbols_tab(s->ses, tab); cur_sid = -1;
 			printf("\n@ok st=%s src=", stname(st));
 			int first = 1;
 			if (st == OF_STATUS_OK) for (unsigned i = 0; i < s->k; i++) if (tab[i]) {
 				int w;
 				printf("%s%u:", first ? "" : ";", i); first = 0;
-				if (is_app_ptr(s, tab[i], i, &w)) printf("app%d:", w);
+				if (tab[i] == (void *)stale) printf("stale:");
+				else if (is_app_ptr(s, tab[i], i, &w)) printf("app%d:", w);
 				else if (s->cbbuf[i] == tab[i]) printf("cb:");
 				else if (ledger_find(tab[i]) >= 0) printf("lib:");
 				else printf("unknown:");
@@ -407,7 +412,7 @@ int main(void)
 			}
 			/* how often the callback fired per esi is part of the observation when it is not exactly once */
 			for (unsigned i = 0; i < s->k; i++) if (s->cbcount[i] > 1) printf(" !cb-twice:%u", i);
-			printf("\n"); free(tab); goto next;
+			printf("\n"); free(tab); free(stale); goto next;
 		}
 		if (!strcmp(op, "matrix")) {
 			of_ldpc_staircase_cb_t *cb = (of_ldpc_staircase_cb_t *)s->ses;
